@@ -284,8 +284,12 @@ func (m *obsModel) observe(n *e1Node, e *logEntry, outs []outMsg, before *priv) 
 			m.lastAct[msg.Id.Id] = e.TS
 		}
 	case robust.IRCFromClient, robust.MessageOfDeath:
-		if _, ok := before.Sess[[2]uint64{msg.Session.Id, 0}]; ok {
-			m.lastAct[msg.Session.Id] = e.TS
+		if sb, ok := before.Sess[[2]uint64{msg.Session.Id, 0}]; ok {
+			// an entry that repeats the session's last client message id is a retry that was already applied:
+			// like a retry answered by the HTTP handler, it is not a new activity
+			if msg.Type == robust.MessageOfDeath || msg.ClientMessageId == 0 || sb.LastClientID != msg.ClientMessageId {
+				m.lastAct[msg.Session.Id] = e.TS
+			}
 		}
 	case robust.Config:
 		if cfg, err := config.FromString(msg.Data); err == nil {
